@@ -1,4 +1,5 @@
 import LivesimVerif.Lemmas.Receiver
+import LivesimVerif.Lemmas.Trans
 import LivesimVerif.Lemmas.RecvInv
 import LivesimVerif.Lemmas.RecvShape
 import LivesimVerif.Model.Renum
@@ -443,6 +444,11 @@ theorem c17_any_ops_no_panic (w : Nat) (h0 : 0 < w) (hw : w < U32) (ops : List G
 example : (runOps (Gen.new 3) [.add "v" ⟨5, 500, 100, false⟩, .add "v" ⟨7, 700, 100, false⟩, .drop 5,
     .add "a" ⟨7, 700, 100, false⟩, .start 4 true, .add "v" ⟨8, 800, 100, true⟩, .add "a" ⟨8, 800, 100, true⟩]).isSome = true := by
   decide
+
+/-- **tie by translation**: the window start `minFromMax` of the counter model is the Go method, translated from the
+current source (`Gen/Trans.lean`, regenerated on every run; the receiver field `windowSize` is a parameter) -/
+theorem c17_trans_minFromMax (c : Ctrs) (mx : Nat) :
+    Gen.Trans.minFromMax (c.w : Int) (mx : Int) = ((c.minFromMax mx : Nat) : Int) := TransTie.minFromMax_eq c mx
 
 end Recv
 
